@@ -1,5 +1,6 @@
 import Flowdyn.Exec.Lim
 import Flowdyn.Exec.Int
+import Flowdyn.Exec.Kern
 
 namespace Flowdyn.Exec
 
@@ -7,6 +8,7 @@ def dispatch (line : String) : String :=
   match tokens line with
   | "lim" :: args => (handleLim args).getD "bad-op"
   | "int" :: args => (handleInt args).getD "bad-op"
+  | "k" :: args => (handleKernel args).getD "bad-op"
   | _ => "bad-op"
 
 partial def loop (h : IO.FS.Stream) (out : IO.FS.Stream) : IO Unit := do
